@@ -1,5 +1,6 @@
 """C19 — number encodings are lossless."""
 CONFIG = {
+    "manifest": {'level_text': 'Coq theorems (closed under the global context) state, for ALL values and byte strings, the round trip of OASIS unsigned / signed / packed integers and 2-, 3-, g-deltas, acceptance of every alternative legal encoding up to 10 bytes, and overflow flagging, on a Gallina model that mirrors the C++ codecs statement by statement. The model is tied to /repo on every run by an obligation over literals regenerated from the source and by running the extracted model and the real codecs on the same inputs; a verified executable form of the specification relation serves as the property oracle.', 'level_note': 'Trusted: Coq kernel, extraction (ExtrOcamlBasic only), regex translator, C++ harness (in-memory OasisStream; static codecs reached by #include of src/oasis.cpp). Point lists, GDSII reals, OASIS reals and byte swaps are covered by the c19_plist / c19_real units when present in the check configuration; otherwise only by the differential run.', 'technique': 'Coq proof over Gallina model of the codecs + generated-constant obligations + extracted-model differential run'},
     "prop_file": "Properties_C19",
     "extract_file": "Extract_C19",
     "extracted": ["c19"],
